@@ -127,17 +127,27 @@ def eval_case(job):
 
             ffp = tmv(*(10.0 ** c[k] for k in ('f1', 'f2', 'f3', 'f4')))
             ei = tmv(*(10.0 ** c[k] for k in ('e1', 'e2', 'e3', 'e4')))
-            ev = np.array([0.1, 1.0, 10.0])
-            amb = dict(Tamb=np.full(3, 288.15), Pamb=np.full(3, 101325.0))
+            ev = np.array([1e-3, 0.1, 1.0, 10.0, 0.0])  # EI.tla NoxEvalExps (the last: a non-positive flow)
+            amb = dict(Tamb=np.full(5, 288.15), Pamb=np.full(5, 101325.0))
             r = BFFM2_EINOx(ev, ei, ffp, **amb)
             n = np.asarray(r.NOxEI, float)
             devs = []
             if not (np.all(np.isfinite(n)) and np.all(n >= 0)):
                 return [('nox:not-finite-nonnegative', f'NOxEI = {n} for {c}')]
-            slope = (math.log10(n[2]) - math.log10(n[0])) / 2.0
+            if np.any(n <= 0):
+                return [('nox:not-positive', f'NOxEI = {n} for positive certification indices {c}')]
+            slope = (math.log10(n[3]) - math.log10(n[1])) / 2.0
             want = float(fr(o['slope']))
             if abs(slope - want) > 1e-9:
                 devs.append(('nox:regression-slope', f'log-log slope {slope}; specification (least squares over 4 calibration points): {want} for {c}'))
+            # the correction factor at sea-level ISA is common to all flows: compare the fitted line through differences to the 1 kg/s point
+            for k, (flow, wl) in enumerate(zip(ev, o['logs'])):
+                got = math.log10(n[k]) - math.log10(n[2])
+                wantd = float(fr(wl)) - float(fr(o['logs'][2]))
+                if abs(got - wantd) > 1e-9 * max(1.0, abs(wantd)):
+                    devs.append((f'nox:fitted-value:{"non-positive-flow" if flow <= 0 else ("below-10-g-per-s" if flow < 0.01 else "regular")}',
+                                 f'log10 EI({flow} kg/s) - log10 EI(1 kg/s) = {got}; specification (fitted line): {wantd} for {c}'))
+                    break
             parts = np.asarray(r.NOEI) + np.asarray(r.NO2EI) + np.asarray(r.HONOEI)
             if not np.allclose(parts, n, rtol=1e-12):
                 devs.append(('nox:speciation-sum', f'NO+NO2+HONO = {parts} but NOx = {n}'))
